@@ -100,7 +100,7 @@ def ledgers(draw, max_txns=10, with_pad=True, with_extras=True, min_txns=1, many
             stock = draw(st.sampled_from(STOCKS))
             acct = draw(st.sampled_from(['Assets:Broker', 'Assets:Broker:Sub']))
             units = D(draw(st.integers(1, 20)))
-            cost = draw(money(100, 50000))
+            cost = draw(money(100, 50000)) if draw(st.integers(0, 7)) else D('0.00')     # sometimes a lot at zero cost
             ccur = draw(st.sampled_from(CASH))
             label = draw(st.sampled_from([None, None, f'lot{i}']))
             # a lot spec without label also matches labelled lots: keep one label per (account, commodity, cost, date)
